@@ -84,6 +84,24 @@ macro_rules! prime_field {
                 "sub" => { let x = el(0, rg)?; let y = el(1, rg)?; $put(x - y, rg) }
                 "mul" => { let x = el(0, rg)?; let y = el(1, rg)?; $put(x * y, rg) }
                 "div" => { let x = el(0, rg)?; let y = el(1, rg)?; $put(x / y, rg) }
+                // all operator forms (value/reference operands, compound assignment by value/reference)
+                "add_vr" => { let x = el(0, rg)?; let y = el(1, rg)?; $put(x + &y, rg) }
+                "add_rv" => { let x = el(0, rg)?; let y = el(1, rg)?; $put(&x + y, rg) }
+                "add_rr" => { let x = el(0, rg)?; let y = el(1, rg)?; $put(&x + &y, rg) }
+                "sub_vr" => { let x = el(0, rg)?; let y = el(1, rg)?; $put(x - &y, rg) }
+                "sub_rv" => { let x = el(0, rg)?; let y = el(1, rg)?; $put(&x - y, rg) }
+                "sub_rr" => { let x = el(0, rg)?; let y = el(1, rg)?; $put(&x - &y, rg) }
+                "mul_vr" => { let x = el(0, rg)?; let y = el(1, rg)?; $put(x * &y, rg) }
+                "mul_rv" => { let x = el(0, rg)?; let y = el(1, rg)?; $put(&x * y, rg) }
+                "mul_rr" => { let x = el(0, rg)?; let y = el(1, rg)?; $put(&x * &y, rg) }
+                "div_vr" => { let x = el(0, rg)?; let y = el(1, rg)?; $put(x / &y, rg) }
+                "div_rv" => { let x = el(0, rg)?; let y = el(1, rg)?; $put(&x / y, rg) }
+                "div_rr" => { let x = el(0, rg)?; let y = el(1, rg)?; $put(&x / &y, rg) }
+                "addav" => { let mut x = el(0, rg)?; let y = el(1, rg)?; x += y; $put(x, rg) }
+                "subav" => { let mut x = el(0, rg)?; let y = el(1, rg)?; x -= y; $put(x, rg) }
+                "mulav" => { let mut x = el(0, rg)?; let y = el(1, rg)?; x *= y; $put(x, rg) }
+                "divav" => { let mut x = el(0, rg)?; let y = el(1, rg)?; x /= y; $put(x, rg) }
+                "negr" => { let x = el(0, rg)?; $put(-&x, rg) }
                 "adda" => { let mut x = el(0, rg)?; let y = el(1, rg)?; x += &y; $put(x, rg) }
                 "suba" => { let mut x = el(0, rg)?; let y = el(1, rg)?; x -= &y; $put(x, rg) }
                 "mula" => { let mut x = el(0, rg)?; let y = el(1, rg)?; x *= &y; $put(x, rg) }
@@ -567,6 +585,23 @@ macro_rules! bin_common {
             "sub" => { let x = el(0, $rg)?; let y = el(1, $rg)?; put(x - y, $rg) }
             "mul" => { let x = el(0, $rg)?; let y = el(1, $rg)?; put(x * y, $rg) }
             "div" => { let x = el(0, $rg)?; let y = el(1, $rg)?; put(x / y, $rg) }
+            "add_vr" => { let x = el(0, $rg)?; let y = el(1, $rg)?; put(x + &y, $rg) }
+            "add_rv" => { let x = el(0, $rg)?; let y = el(1, $rg)?; put(&x + y, $rg) }
+            "add_rr" => { let x = el(0, $rg)?; let y = el(1, $rg)?; put(&x + &y, $rg) }
+            "sub_vr" => { let x = el(0, $rg)?; let y = el(1, $rg)?; put(x - &y, $rg) }
+            "sub_rv" => { let x = el(0, $rg)?; let y = el(1, $rg)?; put(&x - y, $rg) }
+            "sub_rr" => { let x = el(0, $rg)?; let y = el(1, $rg)?; put(&x - &y, $rg) }
+            "mul_vr" => { let x = el(0, $rg)?; let y = el(1, $rg)?; put(x * &y, $rg) }
+            "mul_rv" => { let x = el(0, $rg)?; let y = el(1, $rg)?; put(&x * y, $rg) }
+            "mul_rr" => { let x = el(0, $rg)?; let y = el(1, $rg)?; put(&x * &y, $rg) }
+            "div_vr" => { let x = el(0, $rg)?; let y = el(1, $rg)?; put(x / &y, $rg) }
+            "div_rv" => { let x = el(0, $rg)?; let y = el(1, $rg)?; put(&x / y, $rg) }
+            "div_rr" => { let x = el(0, $rg)?; let y = el(1, $rg)?; put(&x / &y, $rg) }
+            "addav" => { let mut x = el(0, $rg)?; let y = el(1, $rg)?; x += y; put(x, $rg) }
+            "subav" => { let mut x = el(0, $rg)?; let y = el(1, $rg)?; x -= y; put(x, $rg) }
+            "mulav" => { let mut x = el(0, $rg)?; let y = el(1, $rg)?; x *= y; put(x, $rg) }
+            "divav" => { let mut x = el(0, $rg)?; let y = el(1, $rg)?; x /= y; put(x, $rg) }
+            "negr" => { let x = el(0, $rg)?; put(-&x, $rg) }
             "adda" => { let mut x = el(0, $rg)?; let y = el(1, $rg)?; x += &y; put(x, $rg) }
             "suba" => { let mut x = el(0, $rg)?; let y = el(1, $rg)?; x -= &y; put(x, $rg) }
             "mula" => { let mut x = el(0, $rg)?; let y = el(1, $rg)?; x *= &y; put(x, $rg) }
